@@ -327,13 +327,6 @@ def check_outcome(I, world, outcome, name, with_graph=False):
 def install_stubs(reg):
     models_spec.install(reg)
 
-    def needs_lazy(I, thing):
-        if isinstance(thing, (PDict, PList, PSet)):
-            return False
-        return I.builtins["getattr"].fn(thing, "_needsLazyEval", False)
-
-    reg.models[f"{LE}:needsLazyEvaluation"] = needs_lazy
-    reg.trust("lazy_eval.needsLazyEvaluation", "stub identical to the source (getattr(thing, '_needsLazyEval', False)); built-in containers answer False")
 
 
 # =================================================================================================
@@ -343,7 +336,7 @@ def install_stubs(reg):
 PROPS_A = ("p", "q")
 
 
-def setup_priorities(perm, n_normal, with_modifier, final_prop):
+def setup_priorities(perm, n_normal, with_modifier, final_prop, props=("p", "q"), q_specifiers=99):
     """n_normal non-modifying specifiers (+ optionally one modifying specifier) over properties p, q with symbolic
     integer priorities; every subset of {p, q} per specifier is enumerated; defaults for p, q and d."""
 
@@ -352,7 +345,9 @@ def setup_priorities(perm, n_normal, with_modifier, final_prop):
         w = World()
         for k in range(n_normal):
             prios = {}
-            for p in PROPS_A:
+            for p in props:
+                if p == "q" and k >= q_specifiers:
+                    continue
                 if eng.choose(2, f"s{k} specifies {p}?") == 1:
                     prios[p] = eng.fresh_int(f"prio[s{k}.{p}]")
             if final_prop and eng.choose(2, f"s{k} specifies final f?") == 1:
@@ -360,7 +355,7 @@ def setup_priorities(perm, n_normal, with_modifier, final_prop):
             w.specs.append(SpecModel(f"s{k}", prios))
         if with_modifier:
             prios = {}
-            for p in PROPS_A:
+            for p in props:
                 if eng.choose(2, f"m specifies {p}?") == 1:
                     prios[p] = eng.fresh_int(f"prio[m.{p}]")
             if final_prop and eng.choose(2, "m specifies final f?") == 1:
@@ -409,11 +404,11 @@ INLINE_RESOLVE = [
 def register_priorities(reg):
     variants = [
         # tag, number of normal specifiers, modifier?, final property?
-        ("3 specifiers", 3, False, False),
-        ("2 specifiers + modifying", 2, True, False),
-        ("2 specifiers + modifying, final property", 2, True, True),
+        ("3 specifiers", 3, False, False, 2),
+        ("2 specifiers + modifying", 2, True, False, 1),
+        ("1 specifier + modifying, final property", 1, True, True, 1),
     ]
-    for tag, n, withm, fin in variants:
+    for tag, n, withm, fin, nq in variants:
         total = n + (1 if withm else 0)
         for perm in itertools.permutations(range(total)):
             ptag = "".join(map(str, perm))
@@ -423,12 +418,12 @@ def register_priorities(reg):
                 C.Contract(
                     RESOLVE,
                     params=dict(cls=C.Const(None), specifiers=C.Const(None)),
-                    setup=setup_priorities(perm, n, withm, fin),
+                    setup=setup_priorities(perm, n, withm, fin, q_specifiers=nq),
                     post=post_priorities(f"{SHORT}[{tag}]"),
                     raises=[C.Raises("SpecifierError", mode="may")],
                     inline=INLINE_RESOLVE,
                     bounded=True,
-                    note=f"bounded: {tag} over properties p, q (+ defaults p, q, d{', final f' if fin else ''}); priorities symbolic integers; every subset of properties per specifier; input order {ptag}",
+                    note=f"bounded: {tag} over properties p (any specifier) and q (the first {nq} non-modifying specifier(s) and the modifying one) + defaults p, q, d{', final f' if fin else ''}; priorities symbolic integers; every admissible subset of properties per specifier; input order {ptag}",
                     replay=replay_resolve,
                     properties=("C06",),
                 ),
@@ -445,9 +440,10 @@ DEP_WORLD = {
     "a": ({"p": 1}, False, (), ("q", "d")),
     "b": ({"q": 1}, False, (), ("r", "p")),
     "c": ({"r": 1, "p": 2}, False, (), ("q", "z")),  # its claim on p is overridden by a; z has no provider at all
-    "m": ({"p": 1}, True, ("p",), ("q", "r")),  # same priority as a: modifies p
+    "m": ({"p": 1}, True, ("p",), ("q",)),  # same priority as a: modifies p
 }
-DEP_DEFAULTS = {"p": (), "q": (), "r": (), "d": ("p", "r")}  # candidate `self.` dependencies of the class defaults
+DEP_DEFAULTS = {"p": (), "q": (), "r": ()}  # candidate `self.` dependencies of the class defaults (every subset is tried)
+DEP_FIXED_DEFAULTS = {"d": ("p",)}  # the default of d always depends on p (which is modified by m)
 
 
 def _subset(eng, cands, label):
@@ -463,6 +459,8 @@ def setup_dependencies(perm):
             w.specs.append(SpecModel(n, prios, deps=_subset(eng, cands, f"dependencies of {n}"), modifying=mod, modifiable=modifiable))
         for p, cands in DEP_DEFAULTS.items():
             w.defaults[p] = SpecModel(f"default.{p}", {p: -1}, deps=_subset(eng, cands, f"dependencies of default {p}"), default_for=p)
+        for p, deps in DEP_FIXED_DEFAULTS.items():
+            w.defaults[p] = SpecModel(f"default.{p}", {p: -1}, deps=deps, default_for=p)
         names = [s.name for s in w.specs]
         w.order = tuple(names[i] for i in perm)
         objs = {s.name: build_spec(w, s) for s in w.specs}
@@ -491,7 +489,7 @@ def register_dependencies(reg):
                 raises=[C.Raises("SpecifierError", mode="may")],
                 inline=INLINE_RESOLVE,
                 bounded=True,
-                note=f"bounded: specifiers a, b, c and modifying m with fixed priorities, properties p q r d (+ unprovided z); every subset of the candidate dependencies {dict((n, v[3]) for n, v in DEP_WORLD.items())} and of the default of d {DEP_DEFAULTS['d']}; input order {ptag}",
+                note=f"bounded: specifiers a, b, c and modifying m with fixed priorities, properties p q r d (+ unprovided z); every subset of the candidate dependencies {dict((n, v[3]) for n, v in DEP_WORLD.items())} ; the default of d depends on p; input order {ptag}",
                 replay=replay_resolve,
                 properties=("C06",),
             ),
@@ -561,7 +559,7 @@ def register_relational(reg):
         return conc
 
     def setup(I, env):
-        setup_priorities(tuple(range(3)), 3, False, False)(I, env)
+        setup_priorities(tuple(range(3)), 3, False, False, props=("p",))(I, env)
         w = env.vars["_world"]
         I.eng.input_syms[-1] = ("world", C.Ghost(lambda eng, name, I: w, conc_world(w)), w)
 
@@ -573,7 +571,7 @@ def register_relational(reg):
         raises=[C.Raises("SpecifierError", mode="may")],
         inline=INLINE_RESOLVE,
         bounded=True,
-        note="bounded: 3 non-modifying specifiers over p, q with symbolic priorities; first order s0 s1 s2, second order any other permutation",
+        note="bounded: 3 non-modifying specifiers over one property p (defaults p, q, d) with symbolic priorities; first order s0 s1 s2, second order any other permutation",
         replay=replay_resolve,
         properties=("C06",),
     )
@@ -963,6 +961,824 @@ def _scenic_demo_tie():
 
 
 # =================================================================================================
+# (3) Specifier.__init__, ModifyingSpecifier.__init__, PropertyDefault.resolveFor, Constructible.__init_subclass__
+# =================================================================================================
+
+INLINE_CTORS = [
+    "Specifier.__init__",
+    "toLazyValue",
+    "makeDelayedFunctionCall",
+    "DelayedArgument.__init__",
+    "LazilyEvaluable.__init__",
+    "Specifier.getValuesFor",
+    "valueInContext",
+    "LazilyEvaluable.evaluateIn",
+    "DelayedArgument.evaluateInner",
+    "DefaultIdentityDict.__init__",
+    "DefaultIdentityDict.__contains__",
+    "DefaultIdentityDict.__getitem__",
+    "DefaultIdentityDict.__setitem__",
+    "PropertyDefault.resolveFor",
+    "PropertyDefault.forValue",
+    "PropertyDefault.__init__",
+]
+
+
+def _type_of(I, o):
+    """`type(x)` for model containers: the callable builtin (so that `type(thing)(items)` builds a model container)."""
+    if isinstance(o, PDict):
+        return I.builtins["dict"]
+    if isinstance(o, tuple):
+        return I.builtins["tuple"]
+    if isinstance(o, PList):
+        return I.builtins["list"]
+    return I.builtins["type"].fn(o)
+
+
+from pyvc.interp import SpecFn  # noqa: E402
+
+CTOR_ENV = {"type": SpecFn(_type_of, "type", needs_interp=True)}
+
+
+def lazy_model(name, required, fn):
+    """A DelayedArgument-shaped heap object (real class) with the given required properties and value function."""
+    da = PObj(repo_class(f"{LE}:DelayedArgument"), tag=name)
+    da.fields.update(_requiredProperties=tuple(sorted(required)), _dependencies=(), _needsSampling=False, _needsLazyEval=True, _isLazy=True, value=BuiltinFn(name, fn))
+    return da
+
+
+def make_context(**props):
+    from pyvc.models_spec import NamespaceDict
+
+    ns = PObj("SimpleNamespace")
+    ns.fields.update(props)
+    ns.fields["__dict__"] = NamespaceDict(ns)
+    dd = PObj(repo_class("scenic.core.utils:DefaultIdentityDict"))
+    dd.fields["storage"] = PDict()
+    ns.fields["_evaluated"] = dd
+    return ns
+
+
+def as_pairs(d):
+    """items of a dict result (model PDict or native dict built by `type(thing)(items)`)"""
+    if isinstance(d, PDict):
+        return list(zip(d.keys, d.vals))
+    if isinstance(d, dict):
+        return list(d.items())
+    return None
+
+
+def call_real(I, contract, cls_full, method, args):
+    """Run a real method of a repository class inside a post-condition (e.g. to evaluate a produced Specifier)."""
+    f = I.find_method(repo_class(cls_full), method)
+    try:
+        return ("return", I.run_function(f, list(args), {}, contract))
+    except SymRaise as sr:
+        return ("raise", sr.exc)
+
+
+def register_constructors(reg):
+    holder = {}
+
+    # ------------------------------------------------------------------ Specifier.__init__ / ModifyingSpecifier.__init__
+    def setup_init(modifying):
+        def setup(I, env):
+            eng = I.eng
+            prios = [p for p in ("p", "q") if eng.choose(2, f"specifies {p}?") == 1]
+            deps_form = eng.choose(3, "deps: None / empty set / subset")
+            deps = None if deps_form == 0 else PSet(_subset(eng, ("p", "r"), "explicit dependencies") if deps_form == 2 else ())
+            given_deps = () if deps is None else tuple(deps.items)
+            vform = eng.choose(3, "value: plain dict / DelayedArgument / dict containing a lazy value")
+            tokens = {p: _token(f"value.{p}") for p in prios}
+            log = []
+            if vform == 0:
+                value, vreq = PDict([(p, tokens[p]) for p in prios]), ()
+            elif vform == 1:
+                vreq = _subset(eng, ("q", "s"), "properties required by the value")
+                value = lazy_model("value", vreq, lambda ctx: (log.append("value"), PDict([(p, tokens[p]) for p in prios]))[1])
+            else:
+                vreq = ("s",)
+                inner = lazy_model("lazy.part", vreq, lambda ctx: (log.append("part"), _token("evaluated.part"))[1])
+                value = PDict([(p, tokens[p]) for p in prios] + [("w", inner)])
+            env.vars["self"] = PObj(repo_class(f"{SP}:ModifyingSpecifier" if modifying else f"{SP}:Specifier"), tag="self")
+            env.vars["name"] = "TheName"
+            env.vars["priorities"] = PDict([(p, k + 1) for k, p in enumerate(prios)])
+            env.vars["value"] = value
+            env.vars["deps"] = deps
+            if modifying:
+                env.vars["modifiable_props"] = PSet(("p",))
+            env.vars["_g"] = dict(prios=prios, given_deps=given_deps, vreq=tuple(vreq), vform=vform, tokens=tokens, value=value, priorities=env.vars["priorities"], log=log)
+            eng.input_syms.append(("case", C.Const(None), dict(priorities=prios, deps=(None if deps is None else list(given_deps)), value_form=vform, value_requires=list(vreq))))
+
+        return setup
+
+    def post_init(tag, modifying):
+        def post(I, env, outcome):
+            eng = I.eng
+            g = env.vars["_g"]
+            name = f"specifiers.{tag}.__init__"
+            alldeps = sorted(set(g["given_deps"]) | set(g["vreq"]))
+            selfdep = any(p in alldeps for p in g["prios"])
+            if outcome[0] == "raise":
+                eng.check(f"{name}#raises.only_SpecifierError", exc_name(outcome[1]) == "SpecifierError", detail=repr(outcome[1]))
+                eng.check(f"{name}#raises.SpecifierError.only_if_a_specified_property_is_among_the_dependencies", selfdep)
+                return
+            eng.check(f"{name}#raises.SpecifierError.must.when_a_specified_property_is_among_the_dependencies", not selfdep)
+            me = env.vars["self"]
+            eng.check(f"{name}#ensures.priorities_recorded_unchanged", me.fields.get("priorities") is g["priorities"] and list(g["priorities"].keys) == g["prios"])
+            eng.check(f"{name}#ensures.requiredProperties_is_the_sorted_union_of_given_and_value_dependencies", me.fields.get("requiredProperties") == tuple(alldeps), detail=f"{me.fields.get('requiredProperties')} / {alldeps}")
+            eng.check(f"{name}#ensures.name_recorded", me.fields.get("name") == "TheName")
+            if modifying:
+                mp = me.fields.get("modifiable_props")
+                eng.check(f"{name}#ensures.modifiable_props_recorded", isinstance(mp, PSet) and list(mp.items) == ["p"])
+            # the stored value evaluates (in a context providing the dependencies) to the given property values
+            ctx = make_context(**{d: _token(f"ctx.{d}") for d in alldeps})
+            r = call_real(I, holder[tag], f"{SP}:Specifier", "getValuesFor", [me, ctx])
+            pairs = as_pairs(r[1]) if r[0] == "return" else None
+            ok = pairs is not None and all(any(k == p and v is g["tokens"][p] for k, v in pairs) for p in g["prios"])
+            eng.check(f"{name}#ensures.getValuesFor_yields_the_given_value_for_every_specified_property", ok, detail=repr(r))
+            eng.check(f"{name}#ensures.lazy_parts_evaluated_once", g["log"] == ([] if g["vform"] == 0 else ["value"] if g["vform"] == 1 else ["part"]))
+
+        return post
+
+    for tag, modifying in (("Specifier", False), ("ModifyingSpecifier", True)):
+        params = dict(self=C.Const(None), name=C.Const(None), priorities=C.Const(None), value=C.Const(None))
+        if modifying:
+            params["modifiable_props"] = C.Const(None)
+        params["deps"] = C.Const(None)
+        c = C.Contract(
+            f"{SP}:{tag}.__init__",
+            params=params,
+            setup=setup_init(modifying),
+            post=post_init(tag, modifying),
+            raises=[C.Raises("SpecifierError", mode="may")],
+            inline=INLINE_CTORS,
+            env=CTOR_ENV,
+            bounded=True,
+            note="bounded: properties p, q; explicit dependencies None / {} / subsets of {p, r}; value a plain dict, a lazy value requiring a subset of {q, s}, or a dict containing a lazy part requiring s",
+            replay=replay_specifier_init,
+            properties=("C06",),
+        )
+        holder[tag] = c
+        reg.add(c, key=f"{SP}:{tag}.__init__[constructor]")
+
+    # ------------------------------------------------------------------ PropertyDefault.resolveFor
+    ATTRS = ("plain", "additive", "dynamic", "final", "dynamic+final")
+
+    def make_default(eng, tag, attr, req, log):
+        d = PObj(repo_class(f"{SP}:PropertyDefault"), tag=tag)
+        tok = _token(f"{tag}.value")
+
+        def fn(ctx, tag=tag, tok=tok):
+            log.append(tag)
+            return tok
+
+        d.fields.update(requiredProperties=PSet(req), value=BuiltinFn(tag + ".value", fn), isAdditive=(attr == "additive"), isDynamic=("dynamic" in attr), isFinal=("final" in attr))
+        d.tok, d.attr, d.req = tok, attr, tuple(req)
+        return d
+
+    def setup_resolve(I, env):
+        eng = I.eng
+        log = []
+        n_over = eng.choose(3, "number of overridden defaults")
+        me = make_default(eng, "own", ATTRS[eng.choose(len(ATTRS), "attributes of the own default")], _subset(eng, ("a",), "own dependencies"), log)
+        others = []
+        for k in range(n_over):
+            attrs_k = ATTRS if k == 0 else ("plain", "additive", "final")
+            others.append(make_default(eng, f"super{k}", attrs_k[eng.choose(len(attrs_k), f"attributes of overridden default {k}")], ("c",) if k == 0 and eng.choose(2, "super0 depends on c?") else (), log))
+        env.vars["self"] = me
+        env.vars["prop"] = "x"
+        env.vars["overriddenDefs"] = PList(others)
+        env.vars["_g"] = dict(me=me, others=others, log=log)
+        eng.input_syms.append(("case", C.Const(None), dict(own=dict(attr=me.attr, deps=list(me.req)), overridden=[dict(attr=o.attr, deps=list(o.req)) for o in others])))
+
+    def post_resolve(I, env, outcome):
+        eng = I.eng
+        g = env.vars["_g"]
+        me, others, log = g["me"], g["others"], g["log"]
+        name = "specifiers.PropertyDefault.resolveFor"
+        overriding_final = any("final" in o.attr for o in others)
+        if outcome[0] == "raise":
+            eng.check(f"{name}#raises.only_InvalidScenarioError", exc_name(outcome[1]) == "InvalidScenarioError", detail=repr(outcome[1]))
+            eng.check(f"{name}#raises.InvalidScenarioError.only_if_a_final_default_is_overridden", overriding_final)
+            return
+        eng.check(f"{name}#raises.InvalidScenarioError.must.when_a_final_default_is_overridden", not overriding_final)
+        sp = outcome[1]
+        ok = isinstance(sp, PObj) and getattr(sp.cls, "name", "") == "Specifier" and isinstance(sp.fields.get("priorities"), PDict)
+        eng.check(f"{name}#ensures.result_is_a_non_modifying_specifier", ok)
+        if not ok:
+            return
+        eng.check(f"{name}#ensures.specifies_exactly_the_property", list(sp.fields["priorities"].keys) == ["x"])
+        additive = me.attr == "additive"
+        wreq = set(me.req) | ({d for o in others for d in o.req} if additive else set())
+        eng.check(f"{name}#ensures.dependencies_are_own_plus_overridden_ones_iff_additive", sp.fields.get("requiredProperties") == tuple(sorted(wreq)), detail=f"{sp.fields.get('requiredProperties')} / {sorted(wreq)}")
+        ctx = make_context(**{d: _token(f"ctx.{d}") for d in wreq})
+        r = call_real(I, holder["resolveFor"], f"{SP}:Specifier", "getValuesFor", [sp, ctx])
+        pairs = as_pairs(r[1]) if r[0] == "return" else None
+        val = dict(pairs).get("x") if pairs else None
+        if additive:
+            want = [me.tok] + [o.tok for o in others]
+            good = isinstance(val, tuple) and len(val) == len(want) and all(a is b for a, b in zip(val, want))
+            eng.check(f"{name}#ensures.additive_value_is_the_tuple_of_all_defaults_most_derived_first", good, detail=repr(r))
+            eng.check(f"{name}#ensures.every_default_evaluated_once_in_order", log == ["own"] + [o.tag for o in others])
+        else:
+            eng.check(f"{name}#ensures.value_is_the_most_derived_default", val is me.tok, detail=repr(r))
+            eng.check(f"{name}#ensures.overridden_defaults_not_evaluated", log == ["own"])
+
+    c = C.Contract(
+        f"{SP}:PropertyDefault.resolveFor",
+        params=dict(self=C.Const(None), prop=C.Const(None), overriddenDefs=C.Const(None)),
+        setup=setup_resolve,
+        post=post_resolve,
+        raises=[C.Raises("InvalidScenarioError", mode="may")],
+        inline=INLINE_CTORS,
+        env=CTOR_ENV,
+        bounded=True,
+        note="bounded: 0-2 overridden defaults; each default plain / additive / dynamic / final / dynamic+final; dependencies subsets of {a} (own) and {c} (first overridden); the second overridden default plain / additive / final",
+        replay=replay_resolve_for,
+        properties=("C06",),
+    )
+    holder["resolveFor"] = c
+    reg.add(c, key=f"{SP}:PropertyDefault.resolveFor[merging]")
+
+    # ------------------------------------------------------------------ Constructible.__init_subclass__
+    def class_model(name, parents, own, constructible=True):
+        k = PObj("class", tag=name)
+        k.cname, k.parents, k.constructible = name, parents, constructible
+        for par in reversed(parents):  # inherited class attributes
+            for a, v in par.fields.items():
+                if a not in ("__dict__", "__mro__"):
+                    k.fields[a] = v
+        k.fields.update(own)
+        k.fields["__dict__"] = PDict(list(own.items()))
+        mro = [k]
+        for par in parents:
+            for c in par.fields["__mro__"]:
+                if c not in mro:
+                    mro.append(c)
+        k.fields["__mro__"] = tuple(mro)
+        return k
+
+    def setup_subclass(I, env):
+        eng = I.eng
+        log = []
+        root = class_model("Constructible", [], {"_dynamicProperties": PDict()}, constructible=True)
+        mixin = class_model("Mixin", [], {"_scenic_properties": PDict([("x", _token("mixin.x"))])}, constructible=False)
+        defs = {}
+
+        def scenic_props(cname):
+            props = []
+            if eng.choose(2, f"{cname} defines x?") == 1:
+                attr = ATTRS[eng.choose(len(ATTRS), f"attributes of x in {cname}")]
+                d = make_default(eng, f"{cname}.x", attr, (), log)
+                defs[cname] = d
+                props.append(("x", d))
+            return props
+
+        gp = scenic_props("G")
+        G = class_model("G", [root], {"_scenic_properties": PDict(gp + [("y", _token("G.y(raw value)"))]), "_cache_clearers": PDict(), "_dynamicProperties": PDict([("x", "type-of-x")] if "G" in defs and "dynamic" in defs["G"].attr else [])})
+        pp = scenic_props("P")
+        P = class_model("P", [G, mixin], {"_scenic_properties": PDict(pp), "_cache_clearers": PDict(), "_dynamicProperties": PDict([("x", "type-of-x")] if any("dynamic" in defs[c].attr for c in ("G", "P") if c in defs) else [])})
+        cp = scenic_props("C")
+        Cc = class_model("C", [P], {"_scenic_properties": PDict(cp + [("z", _token("C.z(raw value)"))])})
+
+        def resolve(specs, *a):
+            d = Cc.fields.get("_defaults")
+            return (PDict([(p, _token(f"default value of {p}")) for p in d.keys]), PSet())
+
+        Cc.fields["_resolveSpecifiers"] = BuiltinFn("_resolveSpecifiers", resolve)
+        env.vars["cls"] = Cc
+        env.vars["_g"] = dict(defs=defs, C=Cc, log=log)
+        eng.input_syms.append(("case", C.Const(None), {c: d.attr for c, d in defs.items()}))
+
+    def _issubclass(sc, target):
+        return bool(getattr(sc, "constructible", False))
+
+    def _super2(a, b):
+        par = a.parents[0]
+        return par
+
+    def post_subclass(I, env, outcome):
+        eng = I.eng
+        g = env.vars["_g"]
+        defs, Cc = g["defs"], g["C"]
+        name = "object_types.Constructible.__init_subclass__"
+        chain = [defs[c] for c in ("C", "P", "G") if c in defs]  # most derived first
+        overriding_final = any("final" in d.attr for d in chain[1:])
+        if outcome[0] == "raise":
+            eng.check(f"{name}#raises.only_InvalidScenarioError", exc_name(outcome[1]) == "InvalidScenarioError", detail=repr(outcome[1]))
+            eng.check(f"{name}#raises.InvalidScenarioError.only_if_a_final_default_is_overridden", overriding_final)
+            return
+        eng.check(f"{name}#raises.InvalidScenarioError.must.when_a_final_default_is_overridden", not overriding_final)
+        dflt = Cc.fields.get("_defaults")
+        ok = isinstance(dflt, PDict)
+        eng.check(f"{name}#ensures.defaults_table_created", ok)
+        if not ok:
+            return
+        want_props = {"y", "z"} | ({"x"} if chain else set())
+        eng.check(f"{name}#ensures.defaults_for_exactly_the_properties_of_the_scenic_classes_in_the_MRO", set(dflt.keys) == want_props, detail=f"{dflt.keys}")
+        fin = Cc.fields.get("_finalProperties")
+        eng.check(f"{name}#ensures.final_properties_are_those_whose_most_derived_default_is_final", isinstance(fin, PSet) and set(fin.items) == ({"x"} if chain and "final" in chain[0].attr else set()))
+        dyn = Cc.fields.get("_dynamicProperties")
+        is_dyn = any("dynamic" in d.attr for d in chain)
+        eng.check(f"{name}#ensures.dynamic_properties_are_those_with_a_dynamic_default_anywhere_in_the_MRO", isinstance(dyn, PDict) and set(dyn.keys) == ({"x"} if is_dyn else set()))
+        sim = Cc.fields.get("_simulatorProvidedProperties")
+        eng.check(f"{name}#ensures.simulator_provided_are_dynamic_and_not_final", isinstance(sim, PDict) and set(sim.keys) == ({"x"} if is_dyn and not (chain and "final" in chain[0].attr) else set()))
+        # the default of x is the merge of the chain (most derived class first)
+        for p in dflt.keys:
+            sp = dflt.get(p)
+            good = isinstance(sp, PObj) and isinstance(sp.fields.get("priorities"), PDict) and list(sp.fields["priorities"].keys) == [p]
+            eng.check(f"{name}#ensures.each_default_is_a_specifier_for_its_property", good)
+        if chain:
+            g["log"].clear()
+            r = call_real(I, holder["subclass"], f"{SP}:Specifier", "getValuesFor", [dflt.get("x"), make_context()])
+            pairs = as_pairs(r[1]) if r[0] == "return" else None
+            val = dict(pairs).get("x") if pairs else None
+            if chain[0].attr == "additive":
+                want = [d.tok for d in chain]
+                eng.check(f"{name}#ensures.additive_default_concatenates_the_defaults_of_all_classes_most_derived_first", isinstance(val, tuple) and len(val) == len(want) and all(a is b for a, b in zip(val, want)), detail=repr(r))
+            else:
+                eng.check(f"{name}#ensures.default_of_the_most_derived_class_wins", val is chain[0].tok, detail=repr(r))
+        for p, tag in (("y", "G.y(raw value)"), ("z", "C.z(raw value)")):
+            r = call_real(I, holder["subclass"], f"{SP}:Specifier", "getValuesFor", [dflt.get(p), make_context()])
+            pairs = as_pairs(r[1]) if r[0] == "return" else None
+            val = dict(pairs).get(p) if pairs else None
+            eng.check(f"{name}#ensures.plain_values_become_defaults", isinstance(val, PObj) and val.tag == tag, detail=repr(r))
+
+    c = C.Contract(
+        f"{OT}:Constructible.__init_subclass__",
+        params=dict(cls=C.Const(None)),
+        setup=setup_subclass,
+        post=post_subclass,
+        raises=[C.Raises("InvalidScenarioError", mode="may")],
+        inline=INLINE_CTORS,
+        env=dict(CTOR_ENV, issubclass=BuiltinFn("issubclass", _issubclass), super=BuiltinFn("super", _super2), property=property),
+        bounded=True,
+        note="bounded: hierarchy C < P < G < Constructible (+ a non-Scenic mixin with a same-named attribute); property x defined in any subset of {C, P, G} as plain / additive / dynamic / final / dynamic+final; y, z plain values; classes are heap models (issubclass / super(cls, cls) / cls._resolveSpecifiers(()) modelled in the contract)",
+        replay=replay_init_subclass,
+        properties=("C06",),
+    )
+    holder["subclass"] = c
+    reg.add(c, key=f"{OT}:Constructible.__init_subclass__[default merging]")
+    reg.trust("class objects in Constructible.__init_subclass__", "classes are heap models: __dict__/__mro__/inherited attributes as in Python; issubclass(sc, Constructible) answers the model's flag; super(cls, cls) is the first base; cls._resolveSpecifiers(()) (used only to infer types of dynamic properties) returns one opaque value per default")
+
+
+def replay_specifier_init(inputs, clause):
+    from scenic.core.errors import SpecifierError
+    from scenic.core.lazy_eval import DelayedArgument, LazilyEvaluable
+    from scenic.core.specifiers import Specifier
+
+    c = inputs["case"]
+    if isinstance(c, str):
+        import ast as _ast
+
+        c = _ast.literal_eval(c)
+    prios = {p: k + 1 for k, p in enumerate(c["priorities"])}
+    vals = {p: f"value.{p}" for p in prios}
+    if c["value_form"] == 0:
+        value = dict(vals)
+    elif c["value_form"] == 1:
+        value = DelayedArgument(set(c["value_requires"]), lambda ctx: dict(vals), _internal=True)
+    else:
+        value = dict(vals, w=DelayedArgument({"s"}, lambda ctx: "part", _internal=True))
+    deps = None if c["deps"] is None else set(c["deps"])
+    alld = sorted(set(c["deps"] or ()) | set(c["value_requires"]))
+    try:
+        sp = Specifier("TheName", prios, value, deps)
+    except SpecifierError as e:
+        return None if any(p in alld for p in prios) else f"Specifier({prios}, deps={c['deps']}, value requires {c['value_requires']}) raised SpecifierError({e})"
+    if any(p in alld for p in prios):
+        return f"Specifier({prios}, deps={c['deps']}, value requires {c['value_requires']}) accepted a specifier depending on a property it specifies"
+    if sp.requiredProperties != tuple(alld):
+        return f"Specifier(...).requiredProperties = {sp.requiredProperties}, expected {tuple(alld)}"
+    ctx = LazilyEvaluable.makeContext(**{d: 0 for d in alld})
+    got = sp.getValuesFor(ctx)
+    if any(got.get(p) != v for p, v in vals.items()):
+        return f"getValuesFor gives {got}, expected {vals}"
+    return None
+
+
+def _real_default(attr, deps, tag):
+    from scenic.core.specifiers import PropertyDefault
+
+    attrs = set() if attr == "plain" else set(attr.split("+"))
+    return PropertyDefault(set(deps), attrs, lambda ctx, tag=tag: tag)
+
+
+def replay_resolve_for(inputs, clause):
+    from scenic.core.errors import InvalidScenarioError
+    from scenic.core.lazy_eval import LazilyEvaluable
+
+    c = inputs["case"]
+    if isinstance(c, str):
+        import ast as _ast
+
+        c = _ast.literal_eval(c)
+    own = _real_default(c["own"]["attr"], c["own"]["deps"], "own")
+    others = [_real_default(o["attr"], o["deps"], f"super{k}") for k, o in enumerate(c["overridden"])]
+    fin = any("final" in o["attr"] for o in c["overridden"])
+    try:
+        sp = own.resolveFor("x", others)
+    except InvalidScenarioError as e:
+        return None if fin else f"resolveFor raised InvalidScenarioError({e}) for {c}"
+    if fin:
+        return f"resolveFor accepted overriding a final default: {c}"
+    additive = c["own"]["attr"] == "additive"
+    wreq = set(c["own"]["deps"]) | ({d for o in c["overridden"] for d in o["deps"]} if additive else set())
+    if set(sp.requiredProperties) != wreq:
+        return f"resolveFor: dependencies {sp.requiredProperties}, expected {sorted(wreq)} for {c}"
+    val = sp.getValuesFor(LazilyEvaluable.makeContext(**{d: 0 for d in wreq}))["x"]
+    want = tuple(["own"] + [f"super{k}" for k in range(len(others))]) if additive else "own"
+    if val != want:
+        return f"resolveFor: value {val!r}, expected {want!r} for {c}"
+    return None
+
+
+def replay_init_subclass(inputs, clause):
+    from scenic.core.errors import InvalidScenarioError
+    from scenic.core.lazy_eval import LazilyEvaluable
+    from scenic.core.object_types import Constructible
+
+    c = inputs["case"]
+    if isinstance(c, str):
+        import ast as _ast
+
+        c = _ast.literal_eval(c)
+
+    class Mixin:
+        _scenic_properties = {"x": "mixin.x"}
+
+    chain = [k for k in ("C", "P", "G") if k in c]
+    fin = any("final" in c[k] for k in chain[1:])
+    try:
+        G = type("G", (Constructible,), {"_scenic_properties": dict(([("x", _real_default(c["G"], (), "G.x"))] if "G" in c else []) + [("y", "G.y")])})
+        P = type("P", (G, Mixin), {"_scenic_properties": dict([("x", _real_default(c["P"], (), "P.x"))] if "P" in c else [])})
+        K = type("C", (P,), {"_scenic_properties": dict(([("x", _real_default(c["C"], (), "C.x"))] if "C" in c else []) + [("z", "C.z")])})
+    except InvalidScenarioError as e:
+        return None if (fin or any("final" in c[k] for k in chain[2:])) else f"class creation raised InvalidScenarioError({e}) for {c}"
+    if fin:
+        return f"class hierarchy overriding a final default accepted: {c}"
+    want_props = {"y", "z"} | ({"x"} if chain else set())
+    if set(K._defaults) != want_props:
+        return f"_defaults has {sorted(K._defaults)}, expected {sorted(want_props)} ({c})"
+    if set(K._finalProperties) != ({"x"} if chain and "final" in c[chain[0]] else set()):
+        return f"_finalProperties = {set(K._finalProperties)} for {c}"
+    if chain:
+        val = K._defaults["x"].getValuesFor(LazilyEvaluable.makeContext())["x"]
+        want = tuple(f"{k}.x" for k in chain) if c[chain[0]] == "additive" else f"{chain[0]}.x"
+        if val != want:
+            return f"default of x is {val!r}, expected {want!r} ({c})"
+    return None
+
+
+# =================================================================================================
+# (4) reference table: every built-in specifier constructor against docs/reference/specifiers.rst
+# =================================================================================================
+
+from pyvc import extract as _extract  # noqa: E402
+from pyvc.values import Opaque  # noqa: E402
+from pyvc.builtins_model import NativeModule  # noqa: E402
+
+TS = "scenic.core.type_support"
+
+
+def parse_reference(path=None):
+    """Mechanical parse of the reference: section title -> (specifies {prop: (priority, only_with_orientation)},
+    dependencies set, modifiable set).  (Same regular expressions as notes/recon/r15.)"""
+    path = path or os.path.join(_extract.REPO, "docs", "reference", "specifiers.rst")
+    txt = open(path, encoding="utf-8").read()
+    sections = re.split(r"\n([^\n]+)\n-{5,}\n", txt)
+    doc = {}
+    for i in range(1, len(sections), 2):
+        title, body = sections[i].strip(), sections[i + 1]
+        m = re.search(r"\*\*Specifies\*\*:\s*\n(.*?)\n\n\*\*Dependencies\*\*:\s*([^\n]*)", body, re.S)
+        if not m:
+            continue
+        spec, modifies = {}, set()
+        for line in m.group(1).splitlines():
+            mm = re.search(r":prop:`(\w+)` with priority (\d)", line)
+            if mm:
+                spec[mm.group(1)] = (int(mm.group(2)), "preferred orientation" in line)
+                if "**modifies**" in line:
+                    modifies.add(mm.group(1))
+            elif "given property" in line:
+                pm = re.search(r"with priority (\d)", line)
+                spec["<given>"] = (int(pm.group(1)) if pm else 1, False)
+        deps = set(re.findall(r":prop:`(\w+)`", m.group(2)))
+        doc[title] = (spec, deps, modifies)
+    return doc
+
+
+# kind -> class in the repository (for isA / isinstance on abstract argument values)
+KIND_CLASS = {
+    "Vector": "scenic.core.vectors:Vector",
+    "Orientation": "scenic.core.vectors:Orientation",
+    "VectorField": "scenic.core.vectors:VectorField",
+    "Point": f"{OT}:Point",
+    "OrientedPoint": f"{OT}:OrientedPoint",
+    "Object": f"{OT}:Object",
+    "Region": "scenic.core.regions:Region",
+}
+
+
+def absval(name, kind=None, **attrs):
+    o = Opaque(name, typ=kind)
+    o.attrs = dict(attrs)
+    o.total = True
+    return o
+
+
+def _kind_class(kind):
+    return repo_class(KIND_CLASS[kind]) if kind in KIND_CLASS else None
+
+
+def install_reference_stubs(reg):
+    """Argument values of the constructors are ABSTRACT (Opaque with a kind): coercions, geometry and `ego` are
+    trusted stubs -- the obligations of (4) only concern which properties / priorities / dependencies the constructor
+    declares for each kind of argument (the geometric meaning is property C07)."""
+    from pyvc.interp import ClassVal
+
+    prev_attr, prev_call, prev_isinst = reg.opaque_attr, reg.opaque_call, reg.isinstance_hook
+    prev_binop, prev_getitem = reg.binop_fallback, reg.getitem_fallback
+
+    def opaque_attr(I, obj, name):
+        attrs = getattr(obj, "attrs", None)
+        if attrs is not None:
+            if name in attrs:
+                return attrs[name]
+            if name.startswith("_"):
+                I.raise_("AttributeError", name)
+            return absval(f"{obj.name}.{name}")
+        if prev_attr is not None:
+            return prev_attr(I, obj, name)
+        I.raise_("AttributeError", name)
+
+    def opaque_call(I, f, args, kwargs):
+        if getattr(f, "attrs", None) is not None:
+            return absval(f"{f.name}()")
+        if prev_call is not None:
+            return prev_call(I, f, args, kwargs)
+        return Opaque(f"{f.name}()")
+
+    def isinstance_hook(I, x, cls):
+        if isinstance(x, Opaque) and getattr(x, "attrs", None) is not None and isinstance(cls, ClassVal):
+            kc = _kind_class(x.typ)
+            return kc is not None and I.is_subclass(kc, cls)
+        if prev_isinst is not None:
+            return prev_isinst(I, x, cls)
+        return None
+
+    def binop_fb(I, sym, a, b):
+        if any(isinstance(v, Opaque) and getattr(v, "attrs", None) is not None for v in (a, b)):
+            return absval(f"({getattr(a, 'name', a)} {sym} {getattr(b, 'name', b)})")
+        if prev_binop is not None:
+            return prev_binop(I, sym, a, b)
+        from pyvc.values import PyvcError
+
+        raise PyvcError(f"binary operator {sym} on {a!r}, {b!r} not modelled")
+
+    def getitem_fb(I, obj, idx):
+        if isinstance(obj, Opaque) and getattr(obj, "attrs", None) is not None:
+            return absval(f"{obj.name}[{getattr(idx, 'name', idx)}]")
+        return prev_getitem(I, obj, idx)
+
+    reg.opaque_attr, reg.opaque_call, reg.isinstance_hook = opaque_attr, opaque_call, isinstance_hook
+    reg.binop_fallback, reg.getitem_fallback = binop_fb, getitem_fb
+
+    def kind_of(thing):
+        if isinstance(thing, Opaque):
+            return thing.typ
+        if isinstance(thing, (int, float)) and not isinstance(thing, bool):
+            return "float"
+        if isinstance(thing, tuple):
+            return "tuple"
+        return None
+
+    def underlying(I, thing):
+        k = kind_of(thing)
+        if k == "float":
+            return float
+        if k == "tuple":
+            return tuple
+        return _kind_class(k) or object
+
+    def isA(I, thing, ty):
+        u = underlying(I, thing)
+        return I.is_subclass(u, ty) if isinstance(u, (ClassVal, type)) and u is not object else False
+
+    def can_coerce(I, thing, ty, exact=False):
+        k = kind_of(thing)
+        tyname = getattr(ty, "name", getattr(getattr(ty, "pytype", ty), "__name__", None))
+        if tyname == "float":
+            return k == "float"
+        if tyname == "Vector":
+            return k in ("Vector", "Point", "OrientedPoint", "Object", "tuple")
+        if tyname == "Region":
+            return k == "Region"
+        return False
+
+    def coerce(I, thing, ty, error="wrong type"):
+        tyname = getattr(ty, "name", getattr(getattr(ty, "pytype", ty), "__name__", None))
+        if tyname == "Vector":
+            n = getattr(thing, "name", "v")
+            return (absval(f"{n}.x", "float"), absval(f"{n}.y", "float"), absval(f"{n}.z", "float"))
+        return thing
+
+    ident = lambda I, thing, *a, **k: thing  # noqa: E731
+    for fn in ("toVector", "toScalar", "toHeading", "toOrientation"):
+        reg.models[f"{TS}:{fn}"] = ident
+    reg.models[f"{TS}:toType"] = ident
+    reg.models[f"{TS}:underlyingType"] = underlying
+    reg.models[f"{TS}:isA"] = isA
+    reg.models[f"{TS}:canCoerce"] = can_coerce
+    reg.models[f"{TS}:coerce"] = coerce
+    reg.models[f"{VN}:ego"] = lambda I, obj=None: absval("ego", "Object")
+    reg.models[f"{VN}:RelativeTo"] = lambda I, X, Y: absval("RelativeTo(...)")
+    reg.models[f"{VN}:OffsetAlong"] = lambda I, X, H, Y: absval("OffsetAlong(...)", "Vector")
+    reg.models["scenic.core.regions:Region.uniformPointIn"] = lambda I, region, tag=None: absval(f"PointIn({getattr(region, 'name', region)})", "Vector")
+    reg.models["scenic.core.vectors:Orientation.fromEuler"] = lambda I, *a, **k: absval("Orientation.fromEuler(...)", "Orientation")
+    reg.constructors["scenic.core.vectors:Vector"] = lambda I, cls, args, kwargs: absval("Vector(...)", "Vector")
+    reg.extra_modules = dict(getattr(reg, "extra_modules", None) or {})
+    reg.extra_modules["builtins"] = NativeModule("builtins", {"float": float, "int": int})
+    reg.trust(
+        "type_support.toVector/toType/toScalar/toHeading/toOrientation/coerce",
+        "stubs (reference-table contracts only): coercions return their (abstract) argument; isA/canCoerce/underlyingType decide by the declared kind of the abstract argument (Vector, Point, OrientedPoint, Object, Region, VectorField, float, tuple) using the real class hierarchy",
+    )
+    reg.trust(
+        "veneer.ego/RelativeTo/OffsetAlong, Region.uniformPointIn, Orientation.fromEuler, Vector(...), attribute/method/operator/subscript on abstract geometric values",
+        "stubs (reference-table contracts only): total, return abstract values that need no lazy evaluation (their geometric meaning is property C07); DelayedArgument.__new__'s evaluate-immediately branch (inside a running simulation) is not taken",
+    )
+
+
+def _region(name, oriented):
+    return absval(name, "Region", orientation=(absval(name + ".orientation", "VectorField") if oriented else None))
+
+
+def reference_cases():
+    """(doc title, constructor, argument builder, region has a preferred orientation?, description)"""
+    vec = lambda n="V": absval(n, "Vector")  # noqa: E731
+    opt = lambda: absval("OP", "OrientedPoint")  # noqa: E731
+    obj = lambda: absval("OBJ", "Object", onSurface=_region("OBJ.onSurface", False))  # noqa: E731
+    fld = lambda: absval("F", "VectorField")  # noqa: E731
+    cases = [
+        ("with *property* *value*", "With", lambda: dict(prop="foo", val=absval("value")), None, "with foo <value>"),
+        ("at *vector*", "At", lambda: dict(pos=vec()), None, "at <vector>"),
+        ("in *region*", "In", lambda: dict(region=_region("R", True)), True, "in <region with preferred orientation>"),
+        ("in *region*", "In", lambda: dict(region=_region("R", False)), False, "in <region without preferred orientation>"),
+        ("contained in *region*", "ContainedIn", lambda: dict(region=_region("R", True)), True, "contained in <region with preferred orientation>"),
+        ("contained in *region*", "ContainedIn", lambda: dict(region=_region("R", False)), False, "contained in <region without preferred orientation>"),
+        ("on (*region* | *Object* | *vector*)", "On", lambda: dict(thing=_region("R", True)), True, "on <region with preferred orientation>"),
+        ("on (*region* | *Object* | *vector*)", "On", lambda: dict(thing=_region("R", False)), False, "on <region without preferred orientation>"),
+        ("on (*region* | *Object* | *vector*)", "On", lambda: dict(thing=obj()), False, "on <Object>"),
+        ("on (*region* | *Object* | *vector*)", "On", lambda: dict(thing=vec()), False, "on <vector>"),
+        ("offset by *vector*", "OffsetBy", lambda: dict(offset=vec()), None, "offset by <vector>"),
+        ("offset along *direction* by *vector*", "OffsetAlongSpec", lambda: dict(direction=absval("H", "float"), offset=vec()), None, "offset along <heading> by <vector>"),
+        ("offset along *direction* by *vector*", "OffsetAlongSpec", lambda: dict(direction=fld(), offset=vec()), None, "offset along <field> by <vector>"),
+        ("beyond *vector* by (*vector* | *scalar*) [from (*vector* | *OrientedPoint*)]", "Beyond", lambda: dict(pos=vec(), offset=3.0), None, "beyond <vector> by <scalar>"),
+        ("beyond *vector* by (*vector* | *scalar*) [from (*vector* | *OrientedPoint*)]", "Beyond", lambda: dict(pos=vec(), offset=vec("W"), fromPt=opt()), None, "beyond <vector> by <vector> from <OrientedPoint>"),
+        ("beyond *vector* by (*vector* | *scalar*) [from (*vector* | *OrientedPoint*)]", "Beyond", lambda: dict(pos=vec(), offset=vec("W"), fromPt=vec("Z")), None, "beyond <vector> by <vector> from <vector>"),
+        ("visible [from (*Point* | *OrientedPoint*)]", "VisibleFrom", lambda: dict(base=opt()), None, "visible from <OrientedPoint>"),
+        ("visible [from (*Point* | *OrientedPoint*)]", "VisibleFrom", lambda: dict(base=absval("P", "Point")), None, "visible from <Point>"),
+        ("visible [from (*Point* | *OrientedPoint*)]", "VisibleSpec", lambda: dict(), None, "visible"),
+        ("not visible [from (*Point* | *OrientedPoint*)]", "NotVisibleFrom", lambda: dict(base=opt()), None, "not visible from <OrientedPoint>"),
+        ("not visible [from (*Point* | *OrientedPoint*)]", "NotVisibleSpec", lambda: dict(), None, "not visible"),
+        ("following *vectorField* [from *vector*] for *scalar*", "Following", lambda: dict(field=fld(), dist=3.0), None, "following <field> for <scalar>"),
+        ("following *vectorField* [from *vector*] for *scalar*", "Following", lambda: dict(field=fld(), dist=3.0, fromPt=vec()), None, "following <field> from <vector> for <scalar>"),
+        ("facing *orientation*", "Facing", lambda: dict(heading=absval("H", "float")), None, "facing <heading>"),
+        ("facing *orientation*", "Facing", lambda: dict(heading=absval("O", "Orientation")), None, "facing <orientation>"),
+        ("facing *vectorField*", "Facing", lambda: dict(heading=fld()), None, "facing <field>"),
+        ("facing (toward | away from) *vector*", "FacingToward", lambda: dict(pos=vec()), None, "facing toward <vector>"),
+        ("facing (toward | away from) *vector*", "FacingAwayFrom", lambda: dict(pos=vec()), None, "facing away from <vector>"),
+        ("facing directly (toward | away from) *vector*", "FacingDirectlyToward", lambda: dict(pos=vec()), None, "facing directly toward <vector>"),
+        ("facing directly (toward | away from) *vector*", "FacingDirectlyAwayFrom", lambda: dict(pos=vec()), None, "facing directly away from <vector>"),
+        ("apparently facing *heading* [from *vector*]", "ApparentlyFacing", lambda: dict(heading=absval("H", "float")), None, "apparently facing <heading>"),
+        ("apparently facing *heading* [from *vector*]", "ApparentlyFacing", lambda: dict(heading=absval("H", "float"), fromPt=vec()), None, "apparently facing <heading> from <vector>"),
+    ]
+    for head, ctors in (("(left | right) of", ("LeftSpec", "RightSpec")), ("(ahead of | behind)", ("Ahead", "Behind")), ("(above | below)", ("Above", "Below"))):
+        for ctor in ctors:
+            vt = f"{head} (*vector*) [by *scalar*]" if head.startswith("(left") else f"{head} *vector* [by *scalar*]"
+            cases.append((vt, ctor, lambda: dict(pos=vec()), None, f"{ctor} <vector>"))
+            cases.append((vt, ctor, lambda: dict(pos=vec(), dist=2.0), None, f"{ctor} <vector> by <scalar>"))
+            cases.append((vt, ctor, lambda: dict(pos=vec(), dist=vec("D")), None, f"{ctor} <vector> by <vector>"))
+            cases.append((f"{head} *OrientedPoint* [by *scalar*]", ctor, lambda: dict(pos=opt()), None, f"{ctor} <OrientedPoint>"))
+            cases.append((f"{head} *OrientedPoint* [by *scalar*]", ctor, lambda: dict(pos=opt(), dist=2.0), None, f"{ctor} <OrientedPoint> by <scalar>"))
+            cases.append((f"{head} *Object* [by *scalar*]", ctor, lambda: dict(pos=obj()), None, f"{ctor} <Object>"))
+            cases.append((f"{head} *Object* [by *scalar*]", ctor, lambda: dict(pos=obj(), dist=2.0), None, f"{ctor} <Object> by <scalar>"))
+    return cases
+
+
+def expected_entry(doc, title, oriented):
+    spec, deps, modifies = doc[title]
+    want = {p: pr for p, (pr, cond) in spec.items() if not cond or oriented}
+    return want, set(deps), set(modifies)
+
+
+def register_reference(reg):
+    install_reference_stubs(reg)
+    try:
+        doc = parse_reference()
+        err = None
+    except Exception as e:  # missing / unreadable reference: every case fails its obligation below
+        doc, err = {}, f"{type(e).__name__}: {e}"
+    seen = {}
+    for idx, (title, ctor, build, oriented, descr) in enumerate(reference_cases()):
+        target = f"{VN}:{ctor}"
+        k = seen[ctor] = seen.get(ctor, 0) + 1
+        name = f"veneer.{ctor}[{descr}]"
+
+        def setup(I, env, build=build, idx=idx):
+            for a, v in build().items():
+                env.vars[a] = v
+            I.eng.input_syms.append(("case", C.Const(None), idx))
+
+        def post(I, env, outcome, title=title, oriented=oriented, name=name, ctor=ctor):
+            eng = I.eng
+            eng.check(f"{name}#reference.section_found_in_specifiers_rst", title in doc, detail=err or title)
+            if title not in doc:
+                return
+            want, wdeps, wmods = expected_entry(doc, title, bool(oriented))
+            if outcome[0] != "return":
+                eng.check(f"{name}#reference.constructor_returns_a_specifier", False, detail=repr(outcome[1]))
+                return
+            sp = outcome[1]
+            ok = isinstance(sp, PObj) and isinstance(sp.fields.get("priorities"), PDict)
+            eng.check(f"{name}#reference.constructor_returns_a_specifier", ok)
+            if not ok:
+                return
+            pr = sp.fields["priorities"]
+            got = {("<given>" if kk == "foo" else kk): v for kk, v in zip(pr.keys, pr.vals) if not (isinstance(kk, str) and kk.startswith("_"))}
+            eng.check(f"{name}#reference.specifies_exactly_the_listed_properties_with_the_listed_priorities", got == want, detail=f"code {got} / reference {want}")
+            gdeps = set(sp.fields.get("requiredProperties", ()))
+            eng.check(f"{name}#reference.depends_on_exactly_the_listed_properties", gdeps == wdeps, detail=f"code {sorted(gdeps)} / reference {sorted(wdeps)}")
+            mod = sp.fields.get("modifiable_props")
+            gmods = set(mod.items) if isinstance(mod, PSet) else set()
+            is_mod = getattr(sp.cls, "name", "") == "ModifyingSpecifier"
+            eng.check(f"{name}#reference.modifying_exactly_where_the_reference_says_modifies", gmods == wmods and is_mod == bool(wmods), detail=f"code {sorted(gmods)} / reference {sorted(wmods)}")
+
+        params = {a: C.Const(None) for a in build()}
+        reg.add(
+            C.Contract(
+                target,
+                params=params,
+                setup=setup,
+                post=post,
+                inline_all=True,
+                note=f"argument kinds abstract: {descr}; internal properties (leading underscore) are not part of the reference",
+                replay=replay_reference,
+                properties=("C06",),
+            ),
+            key=f"{target}[{descr}]",
+        )
+
+
+def replay_reference(inputs, clause):
+    """Build the REAL specifier for the case (real vectors, regions, objects) and compare with the parsed reference."""
+    idx = int(inputs["case"])
+    title, ctor, build, oriented, descr = reference_cases()[idx]
+    import scenic.syntax.veneer as v
+    from scenic.core.regions import PolygonalRegion
+    from scenic.core.vectors import Orientation, Vector, VectorField
+    from scenic.syntax.translator import CompileOptions
+
+    doc = parse_reference()
+    if title not in doc:
+        return f"no section {title!r} in docs/reference/specifiers.rst"
+    want, wdeps, wmods = expected_entry(doc, title, bool(oriented))
+    v.activate(CompileOptions())
+    try:
+        ego = v.new(v.Object, [v.At(Vector(0, 0, 0))])
+        v.ego(ego)
+        field = VectorField("f", lambda pos: 0.3)
+        real = {
+            "Vector": lambda a: Vector(1, 2, 0),
+            "OrientedPoint": lambda a: v.new(v.OrientedPoint, [v.At(Vector(5, 5, 0))]),
+            "Point": lambda a: v.new(v.Point, [v.At(Vector(6, 5, 0))]),
+            "Object": lambda a: v.new(v.Object, [v.At(Vector(10, 0, 0))]),
+            "VectorField": lambda a: field,
+            "float": lambda a: 0.5,
+            "Orientation": lambda a: Orientation.fromEuler(0.5, 0, 0),
+            "Region": lambda a: PolygonalRegion([(0, 0), (4, 0), (4, 4), (0, 4)], orientation=(field if a.attrs.get("orientation") is not None else None)),
+            None: lambda a: 3,
+        }
+        kwargs = {}
+        for k, a in build().items():
+            kwargs[k] = real[a.typ](a) if isinstance(a, Opaque) else a
+        spec = getattr(v, ctor)(**kwargs)
+        got = {("<given>" if k == "foo" else k): p for k, p in spec.priorities.items() if not k.startswith("_")}
+        gdeps = set(spec.requiredProperties)
+        gmods = set(getattr(spec, "modifiable_props", ()))
+        if got != want:
+            return f"{descr}: real constructor specifies {got}, reference says {want}"
+        if gdeps != wdeps:
+            return f"{descr}: real constructor depends on {sorted(gdeps)}, reference says {sorted(wdeps)}"
+        if gmods != wmods:
+            return f"{descr}: real constructor may modify {sorted(gmods)}, reference says {sorted(wmods)}"
+    finally:
+        v.deactivate()
+    return None
+
+
+# =================================================================================================
 
 
 def register(reg):
@@ -970,4 +1786,6 @@ def register(reg):
     register_priorities(reg)
     register_dependencies(reg)
     register_relational(reg)
+    register_constructors(reg)
     register_dfs(reg)
+    register_reference(reg)
